@@ -495,6 +495,41 @@ func c17BadModuli(s *Suite, rng *Rng, it int) {
 			break
 		}
 	}
+	// N = 7 mod 8 with one factor that is 1 mod 4: P = 4a+1 (a prime, a = 3 mod 8), Q = 2q'+1 safe (q' = 5 mod 8). A prover who
+	// knows the factorisation can answer all four Gennaro sub-proofs for such an N (-1 and 2 reach every quadratic-residue
+	// class modulo N and modulo a*q'), so only the rule N = 5 mod 8 keeps it out
+	for tries := 0; tries < 100000; tries++ {
+		a := rng.Bits(26)
+		a.SetBit(a, 25, 1)
+		a.Sub(a, new(gbig.Int).Mod(a, bi(24))).Add(a, bi(19))
+		P := new(gbig.Int).Lsh(a, 2)
+		P.Add(P, one)
+		if !a.ProbablyPrime(30) || !P.ProbablyPrime(30) {
+			continue
+		}
+		var Q, qp *gbig.Int
+		for {
+			qp = rng.Bits(27)
+			qp.SetBit(qp, 26, 1)
+			qp.Sub(qp, new(gbig.Int).Mod(qp, bi(24))).Add(qp, bi(5))
+			Q = new(gbig.Int).Lsh(qp, 1)
+			Q.Add(Q, one)
+			if qp.ProbablyPrime(30) && Q.ProbablyPrime(30) {
+				break
+			}
+		}
+		n := new(gbig.Int).Mul(P, Q)
+		phi := new(gbig.Int).Mul(pm1(P), pm1(Q))
+		oddN := pm1(n)
+		for oddN.Bit(0) == 0 {
+			oddN.Rsh(oddN, 1)
+		}
+		if new(gbig.Int).GCD(nil, nil, n, phi).Cmp(one) != 0 || new(gbig.Int).GCD(nil, nil, oddN, phi).Cmp(one) != 0 {
+			continue
+		}
+		c17CheatQspp(s, rng, "7-mod-8-with-factor-1-mod-4", n, []*gbig.Int{P, Q}, c, false)
+		break
+	}
 	// small factor
 	sp := bi([]int64{3, 7, 11, 23, 47, 59, 83, 107, 167, 179, 227, 263, 347, 359, 383, 467, 479, 503, 563, 587, 719, 839, 863, 887, 983, 1019}[rng.Intn(26)])
 	b := nextSafePrime(rng, 30)
@@ -557,19 +592,32 @@ func c17CheatQspp(s *Suite, rng *Rng, kind string, n *gbig.Int, factors []*gbig.
 	}
 	var oddFactors []*gbig.Int
 	{
-		// factor the odd part of phi by trial division (toy sizes)
-		rest := new(gbig.Int).Set(oddPhi)
-		for d := int64(3); rest.Cmp(one) != 0 && d < 1<<22; d += 2 {
-			dd := bi(d)
-			for new(gbig.Int).Mod(rest, dd).Sign() == 0 {
-				if len(oddFactors) == 0 || oddFactors[len(oddFactors)-1].Cmp(dd) != 0 {
-					oddFactors = append(oddFactors, dd)
-				}
-				rest.Div(rest, dd)
+		// factor the odd part of phi: trial division on each f-1 (toy sizes), stopping at a prime cofactor
+		seen := map[string]bool{}
+		add := func(d *gbig.Int) {
+			if !seen[d.String()] {
+				seen[d.String()] = true
+				oddFactors = append(oddFactors, d)
 			}
 		}
-		if rest.Cmp(one) != 0 {
-			oddFactors = append(oddFactors, rest)
+		for _, f := range factors {
+			rest := new(gbig.Int).Sub(f, one)
+			for rest.Bit(0) == 0 && rest.Sign() > 0 {
+				rest.Rsh(rest, 1)
+			}
+			for d := int64(3); rest.Cmp(one) != 0 && d < 1<<22; d += 2 {
+				if rest.ProbablyPrime(30) {
+					break
+				}
+				dd := bi(d)
+				for new(gbig.Int).Mod(rest, dd).Sign() == 0 {
+					add(dd)
+					rest.Div(rest, dd)
+				}
+			}
+			if rest.Cmp(one) != 0 {
+				add(rest)
+			}
 		}
 	}
 	nonce := rng.Bits(256)
